@@ -991,3 +991,44 @@ func edgeAtomsOf(fn *ssa.Function, R *Renderer, b *ssa.BasicBlock) []EdgeAtom {
 	}
 	return out
 }
+
+// C12-PERSISTFIRST: operations of the replica that, on the confirmed tree, change a field of the
+// in-memory info block only after the metadata write that records the change has succeeded
+// (persist, then publish) must keep doing so: with the opposite order a failed write is reported
+// as an error but leaves the new value in memory - for Rebuilding / Head that is a different
+// state for the action table and a chain that is not the one on disk.
+var persistFirstFns = map[string]string{
+	"(*replica.Replica).SetRebuilding": "Rebuilding selects the replica's state (action table)",
+	"(*replica.Replica).createDisk":    "Head / Parent: the in-memory chain must be the committed one",
+}
+
+func rulePersistFirst(rule string) ruleFn {
+	return func(c *Ctx) {
+		c.Doc(rule, "in SetRebuilding and createDisk every store to r.info (or one of its fields) is cut off by the success edge of the metadata write (encodeToFile / writeVolumeMetaData): the new value is published in memory only once it is on disk")
+		for name, why := range persistFirstFns {
+			fn := c.Anchor(rule, name)
+			if fn == nil {
+				continue
+			}
+			R := NewRenderer(fn)
+			var st []ssa.Instruction
+			eachInstr(fn, func(in ssa.Instruction) {
+				if s, ok := in.(*ssa.Store); ok {
+					a := R.V(s.Addr)
+					if a == "&$0.info" || strings.HasPrefix(a, "&$0.info.") {
+						if strings.HasSuffix(a, ".Dirty") {
+							return
+						}
+						st = append(st, in)
+					}
+				}
+			})
+			if len(st) == 0 {
+				c.Bad(rule, name+" | publishes the persisted info", "", "no store to r.info found ("+why+")", nil)
+				continue
+			}
+			c.Guard(rule, fn, st, "publish r.info", nil, Need{Desc: "metadata write succeeded", OkCalls: []string{fRep + "encodeToFile", fRep + "writeVolumeMetaData"}})
+		}
+		c.Floor(rule, 2)
+	}
+}
